@@ -25,7 +25,7 @@ Proof.
   rewrite (mul32_cyear cd Hcd), (mul32_ayday cd Hcd).
   assert (E : 146097 * (d / 146097) / 4 + (cd - 3) / 4 = days) by (unfold cd, d; lia).
   assert (E2 : 1461 * (cd / 1461) / 4 + cd mod 1461 / 4 = (cd - 3) / 4) by lia.
-  repeat split; try lia. unfold d. lia.
+  repeat split; try lia; unfold d; lia.
 Qed.
 
 Lemma split_yday_spec : forall a, 0 <= a <= 365 ->
